@@ -67,6 +67,7 @@ func profile(form string) lang.Profile {
 	p.Mutation = false
 	p.FreeVars = true
 	p.OptShapes = true
+	p.ObserveAll = 60
 	p.IllTyped = 0
 	p.Status = true
 	p.StrCompare = true
